@@ -336,6 +336,27 @@ fn run_compositions(kvs: &[Kv], part: usize, parts: usize) -> Result<u64, String
                                 if got != want {
                                     return Err(format!("search {} [operands by reference] with {:?}({}) {:?}({}) gave {} expected {}", e.show(&leaves), lo, key_str(lok), hi, key_str(hik), kvs_str(&got), kvs_str(&want)));
                                 }
+                                // ONE automaton object shared by two searches that are alive at the
+                                // same time and advanced alternately, the second one bounded
+                                if lo == Lo::None && hi == Hi::None {
+                                    let a = r.aut();
+                                    let mut s1 = f.search(&a).into_stream();
+                                    let mut s2 = f.search(&a).ge("a").into_stream();
+                                    let (mut g1, mut g2): (Vec<Kv>, Vec<Kv>) = (vec![], vec![]);
+                                    loop {
+                                        let x = s1.next().map(|(k, o)| (k.to_vec(), o.value()));
+                                        let y = s2.next().map(|(k, o)| (k.to_vec(), o.value()));
+                                        let done = x.is_none() && y.is_none();
+                                        g1.extend(x);
+                                        g2.extend(y);
+                                        if done || g1.len() + g2.len() > 10_000 { break; }
+                                    }
+                                    let want2: Vec<Kv> = want.iter().filter(|(k, _)| &k[..] >= &b"a"[..]).cloned().collect();
+                                    n += 2;
+                                    if g1 != want || g2 != want2 {
+                                        return Err(format!("two live searches sharing one {} automaton, advanced alternately, gave {} and {} expected {} and {}", e.show(&leaves), kvs_str(&g1), kvs_str(&g2), kvs_str(&want), kvs_str(&want2)));
+                                    }
+                                }
                             }
                         }
                     }
@@ -481,7 +502,7 @@ fn do_table(kvs: &[Kv], geom: Geom, auts: &Arc<Vec<TableDfa>>, bmax: usize, wrap
 pub fn plan(tier: Tier) -> Plan {
     let mut p = Plan::new("C04", "model_checking");
     let thorough = tier.thorough();
-    p.rule = "FST x bounds x generated contract-abiding automata: every table DFA with 1..2 states (thorough: 3) over two byte classes, every accepting set, every sound can_match assignment (true where an accepting state is reachable, free elsewhere); search and search_with_state through raw Fst (Map/Set wrappers on small sets); oracle = independent run of the table over each model key incl. the reported state; plus shipped automata/combinators/Levenshtein and regex-automata dense DFAs against specification predicates. every composition of depth <= 2 of AlwaysMatch/Str/Subsequence under StartsWith/Complement/Union/Intersection (real combinator types) against the explicit product DFA; wide nodes (fan-out 2..256, five label layouts incl. gaps below 0xff) searched with every byte as one- and two-byte lower bound under AlwaysMatch/Subsequence/six 2-state table DFAs; operands also passed by reference (impl Automaton for &T); a finite family of 480 (thorough 2400) DFAs with 3..8 states and weakened-but-sound hints per class function over the complete universe of keys of length <= 8 over two bytes; bounds set upper-before-lower and each side set twice, with the same and with the other inclusivity (last setting wins) on both automaton builders; accept_eof is never overridden. non-trivial = distinct (automaton, FST) pairs with >= 2 keys; the gap family also in files of versions 1, 2 and 3 from the reference encoder (bounded search and search_with_state)".into();
+    p.rule = "FST x bounds x generated contract-abiding automata: every table DFA with 1..2 states (thorough: 3) over two byte classes, every accepting set, every sound can_match assignment (true where an accepting state is reachable, free elsewhere); search and search_with_state through raw Fst (Map/Set wrappers on small sets); oracle = independent run of the table over each model key incl. the reported state; plus shipped automata/combinators/Levenshtein and regex-automata dense DFAs against specification predicates. every composition of depth <= 2 of AlwaysMatch/Str/Subsequence under StartsWith/Complement/Union/Intersection (real combinator types) against the explicit product DFA; wide nodes (fan-out 2..256, five label layouts incl. gaps below 0xff) searched with every byte as one- and two-byte lower bound under AlwaysMatch/Subsequence/six 2-state table DFAs; operands also passed by reference (impl Automaton for &T), and one automaton object shared by two live searches advanced alternately; a finite family of 480 (thorough 2400) DFAs with 3..8 states and weakened-but-sound hints per class function over the complete universe of keys of length <= 8 over two bytes; bounds set upper-before-lower and each side set twice, with the same and with the other inclusivity (last setting wins) on both automaton builders; accept_eof is never overridden. non-trivial = distinct (automaton, FST) pairs with >= 2 keys; the gap family also in files of versions 1, 2 and 3 from the reference encoder (bounded search and search_with_state)".into();
     p.assumptions = vec!["contract-abiding = deterministic table, sound can_match, default accept_eof".into()];
     let mut auts = all_dfas(1, ClassFn::IsA, false);
     auts.extend(all_dfas(2, ClassFn::IsA, false));
